@@ -3,6 +3,7 @@
 -/
 import Gmars.Proofs.Abs
 import Gmars.Proofs.ApiWF
+import Gmars.Proofs.ApiRel
 
 namespace Gmars.Props.C13
 open Gmars
@@ -71,6 +72,40 @@ theorem spawn_total {s : Sim} {wi : Int} {off : UInt64} (hwf : s.WF) (hc : s.Cod
 theorem reset_sound {s : Sim} (hwf : s.WF) (hc : s.CodeOK) : s.reset.WF ∧ s.reset.living = 0 ∧
     s.reset.cycleCount = 0 :=
   ⟨(reset_wf hwf hc).1, rfl, rfl⟩
+
+/-- `api_refines` — THE theorem of C13. From any accepted configuration (core ≤ 2^32 cells,
+    limits ≤ core) and for EVERY sequence of AddWarrior / SpawnWarrior(any index, any offset
+    below 2^63) / RunCycle / Run / Reset calls: no call panics, Run always returns, and after the
+    whole sequence the simulator is in the state the documented reference state machine `Spec.Api`
+    reaches by the same calls (`Rel`: same core, cycle count, warrior states, queues of started
+    warriors); calls the reference rejects (unknown index, already running warrior) leave the
+    state unchanged, finished / empty / never-started battles are no-ops. -/
+theorem api_refines {c : Config} {s0 : Sim} {ops : List ApiOp} (hnew : Sim.new c = some s0)
+    (hm : c.coreSize.toNat ≤ 2 ^ 32) (hrl : c.readLimit.toNat ≤ c.coreSize.toNat)
+    (hwl : c.writeLimit.toNat ≤ c.coreSize.toNat) (hops : ∀ op ∈ ops, op.OK c.coreSize) :
+    ∃ s, s0.applyOps ops = .ok s ∧ s.WF ∧
+      Rel s (ops.foldl Spec.Api.applyOp (Spec.Api.new c.coreSize.toNat c.readLimit.toNat
+        c.writeLimit.toNat c.processes.toNat c.cycles.toNat)) :=
+  Gmars.api_refines hnew hm hrl hwl hops
+
+/-- SpawnWarrior is accepted by the model exactly when the reference accepts it (then the states
+    stay related: code loaded with wrap-around, fresh queue holding (offset + start) mod M, warrior
+    alive); a rejected call leaves the state unchanged -/
+theorem spawn_refines {s : Sim} {a : Spec.Api} {wi : Int} {off : UInt64} (hwf : s.WF) (hr : Rel s a)
+    (hd : DataRel s a) (hs : StartsOK s) (hoff : off.toNat < 2 ^ 63) :
+    match s.spawn wi off, a.spawn wi off.toNat with
+    | .ok (s', true), some a' => Rel s' a'
+    | .ok (s', false), none => s' = s
+    | _, _ => False :=
+  spawn_rel hwf hr hd hs hoff
+
+/-- `reset_fresh` — after Reset the simulator is related to a FRESHLY created reference simulator
+    to which the same warriors have been added (none spawned, zero cycles, empty core); only the
+    reference's bookkeeping of stale queues is forgotten (`erase`) -/
+theorem reset_fresh {s : Sim} {a : Spec.Api} (h : Rel s a) (hd : DataRel s a) :
+    ∃ a0, a0 = Spec.Api.freshWith a.M a.R a.W a.P a.C a.sig ∧ Rel s.reset a0 ∧ DataRel s.reset a0 ∧
+      a.reset.erase = a0 :=
+  Gmars.reset_fresh h hd
 
 example : (Sim.new (Config.quick .icws94 8 2 5 1)).map (·.finished) = some true := by decide
 
